@@ -280,7 +280,12 @@ mod imp {
     fn thresholds(ctx: &mut Ctx, pool: &[OwnedFd]) {
         let mut k = 0u64;
         let mut targets: Vec<usize> = (246..=262).collect();
-        targets.extend(65520..=65542);
+        if cfg!(miri) {
+            // 64 KiB containers cost minutes each under the interpreter: only the two sizes around the 2-byte/4-byte switch
+            targets.extend([65534usize, 65536]);
+        } else {
+            targets.extend(65520..=65542);
+        }
         for &t in &targets {
             for nelem in [1usize, 2, 3, 7] {
                 for shape in 0..5 {
